@@ -787,31 +787,39 @@ impl DnsListenerHandler {
             sock.local_addr().unwrap(), /* TODO: Error? */
         );
 
-        let mut lbytes = [0u8; 2];
-
-        if sock.read(&mut lbytes).await.map_err(Error::RecvError)? != lbytes.len() {
-            return Err(Error::ParseError("Failed to read length".into()));
-        }
-
-        let l = u16::from_be_bytes(lbytes) as usize;
-        let mut buffer = vec![0u8; l];
-
-        sock.read_exact(&mut buffer[..])
-            .await
-            .map_err(Error::RecvError)?;
-        let timer = IN_QUERY_LATENCY.with_label_values(&["TCP"]).start_timer();
-
-        let q = s.clone();
-
-        log::trace!(
-            "Received TCP {:?} ⇒ {:?} ({})",
-            sock_addr,
-            sock.local_addr(),
-            buffer.len()
-        );
-
-        tokio::spawn(async move {
+        /* A client may send several queries over one connection (RFC7766), and TCP may deliver
+         * a message in pieces of any size.  Answer the queries in the order they arrive, until
+         * the client closes the connection or stays idle for too long.
+         */
+        const TCP_IDLE_TIMEOUT: std::time::Duration = std::time::Duration::from_secs(10);
+        loop {
             use tokio::io::AsyncWriteExt as _;
+            let mut lbytes = [0u8; 2];
+
+            match tokio::time::timeout(TCP_IDLE_TIMEOUT, sock.read_exact(&mut lbytes)).await {
+                Ok(Ok(_)) => (),
+                /* The client is done, or idle. */
+                Ok(Err(e)) if e.kind() == std::io::ErrorKind::UnexpectedEof => return Ok(()),
+                Err(_) => return Ok(()),
+                Ok(Err(e)) => return Err(Error::RecvError(e)),
+            }
+
+            let l = u16::from_be_bytes(lbytes) as usize;
+            let mut buffer = vec![0u8; l];
+
+            tokio::time::timeout(TCP_IDLE_TIMEOUT, sock.read_exact(&mut buffer[..]))
+                .await
+                .map_err(|_| Error::ParseError("Timed out reading query".into()))?
+                .map_err(Error::RecvError)?;
+            let timer = IN_QUERY_LATENCY.with_label_values(&["TCP"]).start_timer();
+
+            log::trace!(
+                "Received TCP {:?} ⇒ {:?} ({})",
+                sock_addr,
+                sock.local_addr(),
+                buffer.len()
+            );
+
             match Self::build_dns_message(
                 &buffer,
                 sock.local_addr().ok().map(|addr| addr.ip()).unwrap(), /* TODO: Error? */
@@ -819,17 +827,17 @@ impl DnsListenerHandler {
                 Protocol::Tcp,
             ) {
                 Ok(msg) => {
-                    let in_reply = Self::recv_in_query(&q, &msg).await.unwrap();
-                    let serialised =
-                        Self::prepare_to_send(&in_reply, usize::from(u16::MAX));
+                    let in_reply = Self::recv_in_query(s, &msg).await.unwrap();
+                    let serialised = Self::prepare_to_send(&in_reply, usize::from(u16::MAX));
                     let mut in_reply_bytes = Vec::with_capacity(2 + serialised.len());
                     in_reply_bytes.extend((serialised.len() as u16).to_be_bytes().iter());
                     in_reply_bytes.extend(serialised);
-                    if let Err(io) = sock.write(&in_reply_bytes).await {
+                    if let Err(io) = sock.write_all(&in_reply_bytes).await {
                         log::warn!("[{:x}] Failed to send DNS reply: {}", msg.in_query.qid, io);
                         IN_QUERY_RESULT
                             .with_label_values(&["TCP", "send fail"])
                             .inc();
+                        return Ok(());
                     }
                     drop(timer);
                 }
@@ -838,11 +846,11 @@ impl DnsListenerHandler {
                         .with_label_values(&["TCP", "parse fail"])
                         .inc();
                     log::warn!("Failed to handle request: {}", err);
+                    /* We can't tell where the next message starts. */
+                    return Ok(());
                 }
             }
-        });
-
-        Ok(())
+        }
     }
 
     async fn run_tcp_listener(
